@@ -1462,7 +1462,7 @@ class Discovery(object):
                     self.logger.debug('No callback left for %s, unsubscribe '
                                       'on directory', replica)
                     self.discovery_computation.send_to_directory(
-                        SubscribeComputationMessage(replica, False))
+                        SubscribeReplicaMessage(replica, False))
                     # remove all knowledge of current replicas as we are not
                     #  subscribed any more
                     self._replicas_data.pop(replica, None)
